@@ -568,3 +568,266 @@ package tchannel
 //@   ensures hasMoreFragments && f.flagsRef != nil ==> u8at(f.flagsRef, 0) == 1
 //@   ensures !hasMoreFragments && f.flagsRef != nil && (arr(f.flagsRef) != arr(f.checksumRef) || off(f.flagsRef) + 1 <= off(f.checksumRef)) ==> u8at(f.flagsRef, 0) == old(u8at(f.flagsRef, 0))
 //@   property C01 C02
+
+// ===========================================================================
+// interfaces used on the fragment path (T4 for implementations outside the
+// verified set)
+// ===========================================================================
+
+// Every pool in the library hands out frames shaped by NewFrame with the full
+// protocol payload capacity.
+//@ iface FramePool.Get() (f *Frame)
+//@   modifies nothing
+//@   ensures FrameFull(f)
+//@ iface FramePool.Release(f *Frame)
+//@   modifies nothing
+
+//@ functype messageForFragment(initial bool) (m message)
+//@   modifies nothing
+//@   ensures m != nil
+
+//@ iface message.ID() (id uint32)
+//@   modifies nothing
+//@ iface message.messageType() (t messageType)
+//@   modifies nothing
+//@ iface message.write(w *typed.WriteBuffer) (err error)
+//@   modifies w.remaining, w.err, elems(w.remaining)
+//@   ensures typed.Suffix(w.remaining, old(w.remaining))
+//@   ensures old(w.err) == nil && err == nil ==> w.err == nil
+//@ iface message.read(r *typed.ReadBuffer) (err error)
+//@   modifies r.remaining, r.err, self.*
+//@   ensures typed.Suffix(r.remaining, old(r.remaining))
+//@   ensures old(r.err) == nil && err == nil ==> r.err == nil
+
+//@ func (mex *messageExchange) checkError() (err error)
+//@   requires mex.ctx != nil
+//@   property C01 C05 C10
+
+// ===========================================================================
+// reqres.go -- frame allocation and payload-size stamping per fragment (C01, C02)
+// ===========================================================================
+
+// WF: a writable fragment wraps its frame's payload: the write buffer is the
+// whole 65519-byte payload, the flags byte is payload[0], the checksum
+// placeholder has the checksum's size and is preceded by the type code byte.
+//@ pred WF(f *writableFragment) := f != nil && f.frame != nil && FrameFull(f.frame) && f.contents != nil && f.checksum != nil &&
+//@        f.contents.buffer == f.frame.Payload && typed.WB(f.contents) &&
+//@        f.flagsRef != nil && arr(f.flagsRef) == arr(f.frame.Payload) && off(f.flagsRef) == off(f.frame.Payload) && len(f.flagsRef) >= 1 &&
+//@        (f.checksumRef == nil || arr(f.checksumRef) == arr(f.frame.Payload)) && off(f.checksumRef) > off(f.flagsRef) &&
+//@        len(f.checksumRef) == ChecksumType(tcode(f.checksum)).ChecksumSize() &&
+//@        off(f.checksumRef) + len(f.checksumRef) <= off(f.contents.remaining)
+
+//@ func (w *reqResWriter) newFragment(initial bool, checksum Checksum) (fragment *writableFragment, err error)
+//@   requires checksum != nil && w.mex != nil && w.mex.ctx != nil && MexSetOK(w.mex.mexset) && w.conn != nil && w.conn.opts.FramePool != nil && w.messageForFragment != nil && w.log != nil
+//@   modifies all
+//@   label fragment-wraps-a-full-frame
+//@   ensures err == nil ==> WF(fragment) && fragment.checksum == checksum && fragment.contents.err == nil
+//@   label checksum-type-byte-precedes-checksum
+//@   ensures err == nil ==> u8at(fragment.frame.Payload, off(fragment.checksumRef) - off(fragment.frame.Payload) - 1) == tcode(checksum)
+//@   label frame-carries-the-exchange-id
+//@   ensures err == nil ==> fragment.frame.Header.ID == w.mex.msgID
+//@   property C01 C02 C10
+
+// flushFragment: at the moment the frame is queued for the writer goroutine
+// its header carries payload size == bytes written, so the frame is
+// 16 + written <= 65535 bytes, and it is the fragment's own frame.
+//@ func (w *reqResWriter) flushFragment(fragment *writableFragment) (err error)
+//@   requires WF(fragment) && w.mex != nil && w.mex.ctx != nil && MexSetOK(w.mex.mexset) && w.conn != nil && w.log != nil
+//@   modifies all
+//@   label frame-size-is-header-plus-written
+//@   atsend sendCh sent == fragment.frame && sent.Header.size == 16 + (len(fragment.contents.buffer) - len(fragment.contents.remaining))
+//@   label frame-at-most-65535
+//@   atsend sendCh sent.Header.size <= 65535 && sent.Header.size >= 16 && FrameFull(sent)
+//@   property C01 C10
+// ===========================================================================
+// mex.go -- message exchanges keyed by id (C04, C10, C12)
+// MexSetOK: structural well-formedness (never-nil members).
+// MexSetInv: the routing table maps an id only to the exchange created for
+// that id -- the fact "frames for an id reach that call only" rests on.
+// ===========================================================================
+
+//@ pred MexSetOK(s *messageExchangeSet) := s != nil && s.log != nil && s.onRemoved != nil && s.onAdded != nil && s.exchanges != nil && s.expiredExchanges != nil
+//@ pred MexSetInv(s *messageExchangeSet) := forall k uint32 :: has(s.exchanges, k) ==> s.exchanges[k] != nil && s.exchanges[k].msgID == k
+
+//@ funcfield messageExchangeSet.onRemoved()
+//@   modifies all
+//@ funcfield messageExchangeSet.onAdded()
+//@   modifies all
+//@ funcfield messageExchangeSet.onCancel(id uint32)
+//@   modifies all
+
+// Ids in flight are distinct: a second exchange for an id that is still
+// registered is refused and the table is left unchanged.
+//@ func (mexset *messageExchangeSet) addExchange(mex *messageExchange) (err error)
+//@   requires mexset.exchanges != nil
+//@   modifies contents(mexset.exchanges)
+//@   label duplicate-id-rejected
+//@   ensures old(has(mexset.exchanges, mex.msgID)) && !mexset.shutdown ==> err == errDuplicateMex
+//@   ensures mexset.shutdown ==> err == errMexSetShutdown
+//@   label registered-under-its-own-id
+//@   ensures err == nil <==> (!mexset.shutdown && !old(has(mexset.exchanges, mex.msgID)))
+//@   ensures err == nil ==> has(mexset.exchanges, mex.msgID) && mexset.exchanges[mex.msgID] == mex
+//@   label other-ids-untouched
+//@   ensures forall k uint32 :: k != mex.msgID ==> (has(mexset.exchanges, k) <==> old(has(mexset.exchanges, k))) && mexset.exchanges[k] == old(mexset.exchanges[k])
+//@   ensures err != nil ==> (has(mexset.exchanges, mex.msgID) <==> old(has(mexset.exchanges, mex.msgID))) && mexset.exchanges[mex.msgID] == old(mexset.exchanges[mex.msgID])
+//@   label table-invariant-preserved
+//@   ensures old(MexSetInv(mexset)) ==> MexSetInv(mexset)
+//@   property C04
+
+// deleteExchange removes exactly the given id; found and timedOut are exclusive.
+//@ func (mexset *messageExchangeSet) deleteExchange(msgID uint32) (found bool, timedOut bool)
+//@   requires mexset.exchanges != nil && mexset.expiredExchanges != nil
+//@   modifies contents(mexset.exchanges), contents(mexset.expiredExchanges)
+//@   ensures !(found && timedOut)
+//@   ensures found <==> old(has(mexset.exchanges, msgID))
+//@   ensures timedOut <==> (!old(has(mexset.exchanges, msgID)) && old(has(mexset.expiredExchanges, msgID)))
+//@   ensures !has(mexset.exchanges, msgID) && (timedOut ==> !has(mexset.expiredExchanges, msgID))
+//@   ensures forall k uint32 :: k != msgID ==> (has(mexset.exchanges, k) <==> old(has(mexset.exchanges, k))) && mexset.exchanges[k] == old(mexset.exchanges[k])
+//@   ensures forall k uint32 :: k != msgID ==> (has(mexset.expiredExchanges, k) <==> old(has(mexset.expiredExchanges, k)))
+//@   ensures old(MexSetInv(mexset)) ==> MexSetInv(mexset)
+//@   property C04 C11
+
+//@ func (mexset *messageExchangeSet) removeExchange(msgID uint32)
+//@   requires MexSetOK(mexset)
+//@   modifies all
+//@   property C04 C10
+
+//@ func (mexset *messageExchangeSet) expireExchange(msgID uint32)
+//@   requires MexSetOK(mexset)
+//@   modifies all
+//@   property C04 C14
+
+//@ func (mex *messageExchange) shutdown()
+//@   requires MexSetOK(mex.mexset)
+//@   modifies all
+//@   property C04 C10
+
+// A frame is only ever offered to the exchange registered under the frame's own id.
+//@ func (mex *messageExchange) forwardPeerFrame(frame *Frame) (err error)
+//@   label frame-offered-to-its-own-exchange-only
+//@   requires mex.msgID == frame.Header.ID
+//@   requires mex.ctx != nil
+//@   modifies nothing
+//@   property C04
+
+//@ func (mexset *messageExchangeSet) forwardPeerFrame(frame *Frame) (err error)
+//@   requires MexSetOK(mexset) && MexSetInv(mexset)
+//@   requires forall k uint32 :: has(mexset.exchanges, k) ==> mexset.exchanges[k].ctx != nil
+//@   modifies nothing
+//@   property C04 C03
+
+//@ func (w *reqResWriter) failed(err error) (e error)
+//@   requires w.log != nil && w.mex != nil && MexSetOK(w.mex.mexset)
+//@   modifies all
+//@   ensures err != nil ==> e != nil
+//@   property C01 C10
+
+// ===========================================================================
+// fragmenting_writer.go -- writer state machine (C01, C02, C10)
+// The fragmentSender contract is what the writer may rely on and what it owes
+// at each flush (taken from the property: a flushed fragment fits a frame and
+// carries at least one chunk). lastmore/nflushed are ghost accounting of the
+// sender: the more-fragments flag of the latest flushed fragment and the
+// number of fragments flushed.
+// ===========================================================================
+
+//@ ghostfield lastmore
+//@ ghostfield nflushed
+//@ iface fragmentSender.newFragment(initial bool, checksum Checksum) (f *writableFragment, err error)
+//@   requires checksum != nil
+//@   modifies allbut fragmentingWriter, cs, lastmore, nflushed
+//@   ensures err == nil ==> fresh(f) && WF(f) && f.checksum == checksum && f.contents.err == nil && len(f.contents.remaining) > 4
+//@ iface fragmentSender.flushFragment(f *writableFragment) (err error)
+//@   label flushed-fragment-is-well-formed
+//@   requires WF(f)
+//@   label flushed-fragment-has-a-chunk
+//@   requires off(f.contents.remaining) >= off(f.checksumRef) + len(f.checksumRef) + 2
+//@   modifies allbut fragmentingWriter, cs
+//@   ensures nflushed(self) == old(nflushed(self)) + 1
+//@   ensures lastmore(self) == old(u8at(f.flagsRef, 0)) % 2
+//@ iface fragmentSender.doneSending()
+//@   modifies allbut fragmentingWriter, cs, lastmore, nflushed
+
+// FWfrag: the writer's current fragment is well formed and uses the writer's checksum.
+//@ pred FWfrag(w *fragmentingWriter) := w.curFragment != nil && WF(w.curFragment) && w.curFragment.checksum == w.checksum && w.curFragment.contents.err == nil
+// FWin: while an argument is open the current chunk lives in the current
+// fragment: its size placeholder sits after the fragment header and its data
+// runs from the placeholder to the write cursor.
+//@ pred FWin(w *fragmentingWriter) := w.sender != nil && w.checksum != nil && FWfrag(w) && WC(w.curChunk) &&
+//@        w.curChunk.contents == w.curFragment.contents && w.curChunk.checksum == w.checksum &&
+//@        arr(w.curChunk.sizeRef) == arr(w.curFragment.frame.Payload) &&
+//@        off(w.curChunk.sizeRef) >= off(w.curFragment.checksumRef) + len(w.curFragment.checksumRef) &&
+//@        off(w.curChunk.sizeRef) + 2 + w.curChunk.size == off(w.curFragment.contents.remaining)
+// FWidle: between arguments there is either no fragment yet or a well-formed
+// one with room for another chunk header.
+//@ pred FWidle(w *fragmentingWriter) := w.sender != nil && w.checksum != nil &&
+//@        (w.curFragment == nil || (FWfrag(w) && len(w.curFragment.contents.remaining) > 2))
+
+//@ func (w *fragmentingWriter) BeginArgument(last bool) (err error)
+//@   requires w.sender != nil && w.checksum != nil
+//@   requires w.err == nil && w.state != fragmentingWriteComplete && w.state != fragmentingWriteInArgument && w.state != fragmentingWriteInLastArgument ==> FWidle(w)
+//@   modifies allbut cs, lastmore, nflushed
+//@   label errors-are-sticky
+//@   ensures old(w.err) != nil ==> err == old(w.err)
+//@   label no-argument-after-complete
+//@   ensures old(w.state) == fragmentingWriteComplete || old(w.state) == fragmentingWriteInArgument || old(w.state) == fragmentingWriteInLastArgument ==> err != nil
+//@   ensures err == nil ==> FWin(w) && w.err == nil && w.curChunk.size == 0 &&
+//@             (last ==> w.state == fragmentingWriteInLastArgument) && (!last ==> w.state == fragmentingWriteInArgument)
+//@   ensures w.sender == old(w.sender) && w.checksum == old(w.checksum)
+//@   property C01 C02 C10
+
+// Flush: the fragment sent is marked as having more fragments and a fresh
+// fragment with an open chunk continues the argument.
+//@ func (w *fragmentingWriter) Flush() (err error)
+//@   requires FWin(w)
+//@   modifies all
+//@   label flush-marks-more-fragments
+//@   ensures nflushed(w.sender) == old(nflushed(w.sender)) + 1 && lastmore(w.sender) == 1
+//@   ensures err == nil ==> FWin(w) && w.curChunk.size == 0 && w.err == nil
+//@   ensures err != nil ==> w.err == err
+//@   ensures w.state == old(w.state) && w.sender == old(w.sender) && w.checksum == old(w.checksum)
+//@   property C01 C02 C10
+
+// Write: on success every byte was accepted (n == len(b)), the argument is
+// still open, and every fragment flushed on the way was marked "more".
+//@ func (w *fragmentingWriter) Write(b []byte) (n int, err error)
+//@   requires w.err == nil && (w.state == fragmentingWriteInArgument || w.state == fragmentingWriteInLastArgument) ==> FWin(w)
+//@   modifies all
+//@   label errors-are-sticky
+//@   ensures old(w.err) != nil ==> err == old(w.err) && n == 0
+//@   label write-only-inside-an-argument
+//@   ensures old(w.err) == nil && old(w.state) != fragmentingWriteInArgument && old(w.state) != fragmentingWriteInLastArgument ==> err != nil && n == 0
+//@   label all-bytes-accepted
+//@   ensures err == nil ==> n == len(b) && FWin(w) && w.err == nil
+//@   ensures 0 <= n && n <= len(b)
+//@   label intermediate-fragments-marked-more
+//@   ensures nflushed(w.sender) > old(nflushed(w.sender)) ==> lastmore(w.sender) == 1
+//@   ensures w.state == old(w.state) || err != nil
+//@   ensures w.sender == old(w.sender) && w.checksum == old(w.checksum)
+//@   loop 0 invariant FWin(w) && w.err == nil && 0 <= totalWritten && totalWritten + len(b) == len(old(b)) && w.state == old(w.state)
+//@   loop 0 invariant w.sender == old(w.sender) && w.checksum == old(w.checksum)
+//@   loop 0 invariant nflushed(w.sender) > old(nflushed(w.sender)) ==> lastmore(w.sender) == 1
+//@   loop 0 invariant nflushed(w.sender) >= old(nflushed(w.sender))
+//@   property C01 C02 C10
+
+// Close: the last argument's Close flushes exactly one fragment without the
+// more flag and completes the writer; any other Close leaves the writer ready
+// for the next argument, flushing (with the more flag) only when the fragment
+// has no room for another chunk header, and then starts the new fragment with
+// an empty chunk that ends the argument.
+//@ func (w *fragmentingWriter) Close() (err error)
+//@   requires w.err == nil && (w.state == fragmentingWriteInArgument || w.state == fragmentingWriteInLastArgument) ==> FWin(w)
+//@   requires w.err == nil && w.state == fragmentingWriteInLastArgument ==> u8at(w.curFragment.flagsRef, 0) == 0
+//@   modifies all
+//@   ensures old(w.err) != nil ==> err == old(w.err)
+//@   ensures old(w.err) == nil && old(w.state) != fragmentingWriteInArgument && old(w.state) != fragmentingWriteInLastArgument ==> err != nil
+//@   label last-fragment-not-marked-more
+//@   ensures old(w.err) == nil && old(w.state) == fragmentingWriteInLastArgument ==>
+//@             w.state == fragmentingWriteComplete && nflushed(w.sender) == old(nflushed(w.sender)) + 1 && lastmore(w.sender) == 0
+//@   label non-last-close-keeps-writer-ready
+//@   ensures old(w.err) == nil && old(w.state) == fragmentingWriteInArgument && err == nil ==>
+//@             w.state == fragmentingWriteWaitingForArgument && FWidle(w) && w.curFragment != nil && w.err == nil
+//@   label non-last-flush-marked-more
+//@   ensures old(w.state) == fragmentingWriteInArgument && nflushed(w.sender) > old(nflushed(w.sender)) ==> lastmore(w.sender) == 1
+//@   ensures w.sender == old(w.sender) && w.checksum == old(w.checksum)
+//@   property C01 C02 C10
